@@ -120,8 +120,11 @@ class Hist:
         self.methods[h] = me
 
     def back(self, obj, **meta):
-        if self.cfg[3] and self.rng.random() < 0.9:
+        racing = getattr(self, "answer_racing", False)
+        self.answer_racing = False
+        if self.cfg[3] and not racing and self.rng.random() < 0.9:
             # gated transport: let the client's pending writes through before the server speaks
+            # (except when `racing`: the server answers while the write of that very request is still blocked)
             for _ in range(3):
                 self.add("release", kind="release")
         raw = obj if isinstance(obj, bytes) else J(obj)
@@ -133,6 +136,7 @@ class Hist:
     def answer_call(self):
         if not self.calls:
             return
+        self.answer_racing = self.cfg[3] and self.rng.random() < 0.3
         h = self.rng.choice(sorted(self.calls))
         i = self.calls.pop(h)
         self.answered.append(i)
@@ -455,6 +459,26 @@ def oracle_c03(H, evs, fail):
                 ids_on_wire.append(int(x["id"]))
     if len(ids_on_wire) != len(set(ids_on_wire)):
         fail("wire-ids-not-distinct", "two requests on the wire share an id: %s" % sorted(ids_on_wire))
+    # a correct answer to a call whose request is already on the wire must complete that call (with that answer):
+    # it must never be treated as a response matching nothing pending
+    wire_at = {}
+    for k, o in wire_requests(evs):
+        if isinstance(o, dict) and isinstance(o.get("method"), str) and o["method"].startswith("m"):
+            wire_at.setdefault(int(o["method"][1:]), k)
+    died_at = next((k for k, d in enumerate(evs) if d["F"]), None)
+    answered_ids = set()
+    for idx, (t, m) in enumerate(H.ev):
+        if m.get("what") == "answer" and idx < len(evs):
+            h, i = m["h"], m["id"]
+            first = i not in answered_ids
+            answered_ids.add(i)
+            gave_up = any(mm.get("kind") == "giveup" and mm.get("h") == h for _, mm in H.ev[:idx])
+            if first and not gave_up and h in wire_at and wire_at[h] < idx and (died_at is None or died_at >= idx):
+                got = evs[idx]["C"].get(h)
+                if not got or not (got[0].startswith("ok:") or got[0].startswith("call:")):
+                    fail("correct-answer-not-delivered",
+                         "call %d (id %s) was on the wire since event %d; its answer at event %d gave %s%s" % (
+                             h, i, wire_at[h], idx, got, " and the client shut down (%s)" % evs[idx]["F"] if evs[idx]["F"] else ""))
     for k, d in enumerate(evs):
         for h, rs in d["C"].items():
             for r in rs:
